@@ -32,15 +32,18 @@ type valueSpec struct {
 }
 
 var Values = []valueSpec{
-	{"num", cty.NumberIntVal(7), true},
+	// numbers a float64 cannot hold: what is written must be the number that was set
+	{"num", cty.MustParseNumberVal("18446744073709551615"), true},
 	{"str-meta", cty.StringVal("q\"b\\s\n\t\r${x}%{y}$${ %%{ $ %"), true},
 	{"str-unicode", cty.StringVal("\u00e9\U0001f600  z\u4e16"), true},
 	{"str-nonprint", cty.StringVal("a\x01b\u2028c\U000e0001d\x7f\u00a0e"), true},
-	{"tuple", cty.TupleVal([]cty.Value{cty.NumberIntVal(1), cty.StringVal("a"), cty.TupleVal([]cty.Value{cty.True})}), true},
+	{"tuple", cty.TupleVal([]cty.Value{cty.MustParseNumberVal("9007199254740993"), cty.StringVal("a"), cty.TupleVal([]cty.Value{cty.True})}), true},
 	{"object", cty.ObjectVal(map[string]cty.Value{"k": cty.NumberIntVal(1), "odd key": cty.StringVal("v"), "n": cty.EmptyObjectVal}), true},
 	{"str-plain", cty.StringVal("plain"), false},
 	{"str-empty", cty.StringVal(""), false},
 	{"negfraction", cty.MustParseNumberVal("-12.5e-3"), false}, // decimal, as a configuration would give it (a float64 image of 0.0125 is a different number)
+	{"longfraction", cty.MustParseNumberVal("0.1234567890123456789012345"), false},
+	{"smallnum", cty.NumberIntVal(7), false},
 	{"bool", cty.False, false},
 	{"null", cty.NullVal(cty.String), false},
 	{"list", cty.ListVal([]cty.Value{cty.StringVal("x"), cty.StringVal("y")}), false},
